@@ -142,6 +142,27 @@ class Interp:
                     return self.walk(rest, v[k], scope, "key")
                 return [UNRES]
             return [UNRES]
+        if t == "varkey":
+            # documented key interpolation `a.%k`: the variable's values name the keys to follow; a non-string value is an error
+            vals, _ = self.var_results(p[1], scope)
+            if rest and rest[0][0] not in ("key", "allidx", "varkey"):
+                raise Unspec("query part after an interpolated key")
+            if not isinstance(v, dict):
+                return [UNRES]
+            out = []
+            for r in vals:
+                if isinstance(r, U):
+                    out.append(UNRES)
+                    continue
+                keys = r.v if isinstance(r.v, list) else [r.v]
+                for k in keys:
+                    if not isinstance(k, str):
+                        raise Err("interpolated key is not a string")
+                    if k in v:
+                        out.extend(self.walk(rest, v[k], scope, "key"))
+                    else:
+                        out.append(UNRES)
+            return out
         if t == "this":
             return self.walk(rest, v, scope, "this")
         if t == "all":
